@@ -36,7 +36,9 @@ class IV:
         self.sort = sort
 
     def __repr__(self):
-        return f"{self.sort}{self.id}"
+        # zero-padded: several canonical choices order index variables by repr; with plain decimal ids "D1000" < "D999" and a
+        # choice could flip when the counter crosses a power of ten (observed once as a spurious LD0 / LD2 mismatch)
+        return f"{self.sort}{self.id:07d}"
 
 
 class IC:
@@ -486,11 +488,28 @@ def _fkey(f):
     raise KernelError(f)
 
 
-def _poly_form(p, m):
+def _symnorm(x, ctx):
+    """indices of a symmetric atom ordered by their hole / bound names (so that S[i,j] and S[j,i] give the same form)"""
+    if ctx is None or x[0] != "A":
+        return x
+    groups = ctx.sym.get(x[1])
+    if not groups:
+        return x
+    idx = list(x[2])
+    for g in groups:
+        if max(g) >= len(idx):
+            continue
+        vals = sorted((idx[q] for q in g), key=_ikey)
+        for q, v in zip(g, vals):
+            idx[q] = v
+    return ("A", x[1], tuple(idx), x[3])
+
+
+def _poly_form(p, m, ctx=None):
     """canonical poly p with free IVs replaced per m -> sorted tuple of (factors, nbound, coeff)"""
     items = []
     for (f, nb), c in p.items():
-        ff = tuple(sorted((_fsubst_h(x, m) for x in f), key=_fkey))
+        ff = tuple(sorted((_symnorm(_fsubst_h(x, m), ctx) for x in f), key=_fkey))
         items.append((tuple(_fkey(x) for x in ff), nb, c, ff))
     items.sort(key=lambda t: (t[0], t[1], t[2]))
     return tuple((t[3], t[1], t[2]) for t in items), tuple((t[0], t[1], t[2]) for t in items)
